@@ -2,6 +2,8 @@ package main
 
 import (
 	"context"
+	"crypto/sha256"
+	"encoding/hex"
 	"fmt"
 	"os"
 	"os/exec"
@@ -206,8 +208,14 @@ func solveAll(gens []*Gen, prelude string, outDir string, timeoutS int, workers 
 			defer wg.Done()
 			for j := range ch {
 				file := filepath.Join(outDir, files[j.o]+".smt2")
-				os.WriteFile(file, []byte(j.g.smtText(j.o, prelude, false)), 0o644)
+				text := j.g.smtText(j.o, prelude, false)
+				os.WriteFile(file, []byte(text), 0o644)
 				var r SolveResult
+				if cr, ok := cacheGet(text, j.o.Must); ok {
+					cr.File = file
+					j.o.Result = &cr
+					continue
+				}
 				if j.o.Must == "sat" {
 					// vacuity probe: only an unsat answer matters (contradictory
 					// assumptions show up fast); one solver, short budget
@@ -233,6 +241,7 @@ func solveAll(gens []*Gen, prelude string, outDir string, timeoutS int, workers 
 					}
 				}
 				j.o.Result = &r
+				cachePut(text, j.o.Must, &r)
 			}
 		}()
 	}
@@ -262,8 +271,69 @@ func solveAll(gens []*Gen, prelude string, outDir string, timeoutS int, workers 
 				r := discharge(j.o.Result.File, 2*timeoutS)
 				r.Time += j.o.Result.Time
 				j.o.Result = &r
+				if b, err := os.ReadFile(r.File); err == nil {
+					cachePut(string(b), j.o.Must, &r)
+				}
 			}(j)
 		}
 		wg2.Wait()
+	}
+}
+
+// ---- result cache (development tools only) ----------------------------------------
+// With VERIF_CACHE=<dir> a query whose text (comments stripped) is byte-identical to one
+// already decided is not sent to the solvers again.  The VCs are still generated from the
+// tree on every run; only an "unsat" (or, for a vacuity probe, a "sat"/"unknown") is
+// reused.  The registered quick/thorough commands do not set VERIF_CACHE; the must-fail
+// and must-pass corpora do, because nearly all queries of a seeded tree equal those of
+// the unchanged tree.
+
+func cacheKey(text, must string) string {
+	var b strings.Builder
+	for _, l := range strings.Split(text, "\n") {
+		if strings.HasPrefix(l, ";") {
+			continue
+		}
+		b.WriteString(l)
+		b.WriteByte('\n')
+	}
+	h := sha256.Sum256([]byte(must + "|" + b.String()))
+	return hex.EncodeToString(h[:])
+}
+
+func cacheGet(text, must string) (SolveResult, bool) {
+	dir := os.Getenv("VERIF_CACHE")
+	if dir == "" {
+		return SolveResult{}, false
+	}
+	k := cacheKey(text, must)
+	b, err := os.ReadFile(filepath.Join(dir, k[:2], k))
+	if err != nil {
+		return SolveResult{}, false
+	}
+	parts := strings.SplitN(strings.TrimSpace(string(b)), " ", 2)
+	if len(parts) != 2 {
+		return SolveResult{}, false
+	}
+	return SolveResult{Status: parts[0], Solver: parts[1] + " (cached)", Output: parts[0]}, true
+}
+
+func cachePut(text, must string, r *SolveResult) {
+	dir := os.Getenv("VERIF_CACHE")
+	if dir == "" || r == nil || strings.HasSuffix(r.Solver, "(cached)") {
+		return
+	}
+	ok := r.Status == "unsat" && must != "sat"
+	if must == "sat" && (r.Status == "sat" || r.Status == "unknown") {
+		ok = true
+	}
+	if !ok {
+		return
+	}
+	k := cacheKey(text, must)
+	os.MkdirAll(filepath.Join(dir, k[:2]), 0o755)
+	tmp := filepath.Join(dir, k[:2], k+fmt.Sprintf(".tmp%d", os.Getpid()))
+	if os.WriteFile(tmp, []byte(r.Status+" "+r.Solver+"\n"), 0o644) == nil {
+		os.Rename(tmp, filepath.Join(dir, k[:2], k))
 	}
 }
